@@ -408,6 +408,83 @@ func zipSingleFaults(b *base, emit func(desc string, data []byte)) {
 			xmlEmit(fmt.Sprintf("tag-drop@%d", t[0]), s[:t[0]]+s[t[1]:])
 			xmlEmit(fmt.Sprintf("tag-dup@%d", t[0]), s[:t[1]]+s[t[0]:])
 		}
+		// reference cycles between named definitions (style inheritance and the like):
+		// a definition that names itself, and a two-element cycle
+		for _, rc := range []struct{ open, idAttr, refElem, refAttr string }{
+			{"<w:style ", "w:styleId", "w:basedOn", ""},     // DOCX styles: <w:basedOn w:val="ID"/>
+			{"<w:style ", "w:styleId", "w:link", ""},        // linked styles
+			{"<w:abstractNum ", "w:abstractNumId", "w:numStyleLink", ""},
+			{"<style:style ", "style:name", "", "style:parent-style-name"}, // ODF: attribute on the element itself
+			{"<text:list-style ", "style:name", "", "style:parent-style-name"},
+		} {
+			var ids []string
+			var pos []int // position just behind the opening tag of each definition
+			for idx := 0; ; {
+				i := strings.Index(s[idx:], rc.open)
+				if i < 0 {
+					break
+				}
+				at := idx + i
+				end := strings.Index(s[at:], ">")
+				if end < 0 {
+					break
+				}
+				tag := s[at : at+end+1]
+				if m := regexp.MustCompile(rc.idAttr + `="([^"]*)"`).FindStringSubmatch(tag); m != nil && !strings.HasSuffix(tag, "/>") {
+					ids = append(ids, m[1])
+					pos = append(pos, at+end+1)
+				}
+				idx = at + end + 1
+			}
+			mk := func(targets map[int]string) string { // definition index -> id it refers to
+				var sb strings.Builder
+				last := 0
+				for k, p := range pos {
+					t, ok := targets[k]
+					if !ok {
+						continue
+					}
+					if rc.refAttr != "" {
+						// attribute inside the opening tag
+						sb.WriteString(s[last : p-1])
+						sb.WriteString(" " + rc.refAttr + `="` + t + `">`)
+					} else {
+						sb.WriteString(s[last:p])
+						// replace an existing reference inside this definition, else insert one
+						closeTag := "</" + strings.TrimSpace(rc.open[1:]) + ">"
+						spanEnd := len(s)
+						if e := strings.Index(s[p:], closeTag); e >= 0 {
+							spanEnd = p + e
+						}
+						re := regexp.MustCompile(`<` + rc.refElem + ` w:val="[^"]*"/>`)
+						if loc := re.FindStringIndex(s[p:spanEnd]); loc != nil {
+							sb.WriteString(s[p : p+loc[0]])
+							sb.WriteString("<" + rc.refElem + ` w:val="` + t + `"/>`)
+							last = p + loc[1]
+							continue
+						}
+						sb.WriteString("<" + rc.refElem + ` w:val="` + t + `"/>`)
+					}
+					last = p
+				}
+				sb.WriteString(s[last:])
+				return sb.String()
+			}
+			for k := range ids {
+				if k > 6 {
+					break
+				}
+				xmlEmit(fmt.Sprintf("ref-cycle %s %s->self", rc.refElem+rc.refAttr, ids[k]), mk(map[int]string{k: ids[k]}))
+			}
+			if len(ids) >= 2 {
+				xmlEmit(fmt.Sprintf("ref-cycle %s %s<->%s", rc.refElem+rc.refAttr, ids[0], ids[1]), mk(map[int]string{0: ids[1], 1: ids[0]}))
+				all := map[int]string{}
+				for k := range ids {
+					all[k] = ids[(k+1)%len(ids)]
+				}
+				xmlEmit(fmt.Sprintf("ref-cycle %s ring of %d", rc.refElem+rc.refAttr, len(ids)), mk(all))
+			}
+		}
 		xmlEmit("deep-nesting", strings.Repeat("<a>", 20000)+s)
 		for _, span := range []string{"gridSpan", "rowspan", "colspan", "number-columns-repeated", "number-rows-repeated", "number-columns-spanned", "number-rows-spanned", "w:val", "count", "uniqueCount", "sheetId", "r:id"} {
 			if j := strings.Index(s, span+`="`); j >= 0 {
